@@ -20,14 +20,37 @@ RULE = ("one case = query (flat / abundance, 5-200 hashes) + 1-3 LinearIndex dat
         "duplicate / covering / disjoint / random overlap structure, hashes placed on and around the max_hash thresholds of the scaled values in play, "
         "database finer / equal / coarser than the query or mixing scaled values, threshold 0 / on an overlap boundary +-1 / unattainable, "
         "prefetch counters / on-demand Index.peek / both in one run / commands.gather's ident-noident split, ignore-abundance on/off, raw "
-        "CounterGather peek/consume histories; non-trivial = >= 2 reported rounds (or >= 2 successful peeks); distinct = distinct op lists")
+        "CounterGather peek/consume histories; a 'boundary' flavour (query cut into blocks of decreasing size, one sketch per block, threshold_bp = "
+        "(size of what is unassigned before some round) * scaled, exactly or +-1, all modes); a slice of 24 cases through the command line in-process; non-trivial = >= 2 reported rounds (or >= 2 successful peeks); distinct = distinct op lists")
 
 def extra(chk, pkg):
     """thorough tier: the `sourmash gather` command line (prefetch and --no-prefetch, --ignore-abundance,
     --output-unassigned) and `sourmash multigather` on files, against the in-process observations of the same case"""
-    if chk.tier != "thorough":
-        return
     import cli_lib, common
+    if chk.tier != "thorough":
+        # quick tier: a slice of cases through the real command line, IN-PROCESS (sourmash.__main__.main(argv) inside
+        # adapters/cli_server.py: one interpreter per batch), against the in-process observations of the same case
+        n = int(os.environ.get("VERIF_C07_QCLI", "24"))
+        cases, optl = [], []
+        for i in range(n):
+            c, o = gather.gen_cli_case(chk.rng, i)
+            cases.append(c)
+            optl.append(o)
+        res = streamlib.run_cases(gather, cases, pkg, procs=4, per_proc_min=6)
+        byc = {id(c): o for c, o in zip(cases, optl)}
+        jobs = [(c, i, byc[id(c)]) for c, i, m, cr in res if cr is None]
+        nb = 4
+        outs = common.par_map(cli_lib.quick_gather_batch, [(jobs[j::nb], pkg) for j in range(nb) if jobs[j::nb]], procs=nb)
+        ninv = 0
+        for batch in outs:
+            for bad, k in batch:
+                chk.cov["evaluations"] += 1
+                ninv += k
+                for sig, msg, data in bad:
+                    chk.add_violation("cli", sig, msg, data)
+        chk.cov["cli_inprocess_cases"] = len(jobs)
+        chk.cov["cli_inprocess_invocations"] = ninv
+        return
     n = int(os.environ.get("VERIF_C07_CLI", "160"))
     cases = []
     for i in range(n):
